@@ -168,6 +168,25 @@ def check(rng, deep):
         if set(r_after.toplevel) != set(hss.toplevel) or any(abs(r_after[k] - hss[k]) > 0 for k in hss.toplevel if np.isscalar(hss[k])):
             C.push(out, dict(what='steady_state after a history of other calls differs from the initial steady_state', input=dict(kind='audit', call=f'steady_state[{name}] after history',
                              extra_keys=sorted(set(r_after.toplevel) ^ set(hss.toplevel))), signature=dict(op='history-dependence', block=name)))
+    # deriving blocks from a shared base (add/remove heterogeneous functions) must not change the base, and a later derivation must not depend on earlier ones
+    import copy
+    for label, base, fns_all, fns_some in (('StageBlock', hm.pair_stage_bare, [hm.pair_grids, hm.pair_income, hm.alter_Pi], [hm.pair_grids]),
+                                           ('HetBlock', hetblocks.hh_sim.hh, [hm.sim_income, hm.sim_grids], [hm.sim_grids])):
+        fresh = copy.deepcopy(base)
+        want_some = (sorted(fresh.add_hetinputs(fns_some).inputs), sorted(fresh.add_hetinputs(fns_some).outputs))
+        fresh2 = copy.deepcopy(base)
+        want_all = (sorted(fresh2.add_hetinputs(fns_all).inputs), sorted(fresh2.add_hetinputs(fns_all).outputs))
+        before = snap(base)
+        n += 1
+        d1 = base.add_hetinputs(fns_all)
+        d2 = base.add_hetinputs(fns_some)
+        d3 = d1.remove_hetinputs([f.__name__ for f in fns_all if f not in fns_some]) if len(fns_all) > len(fns_some) else d1
+        inp = dict(kind='audit', call=f'add_hetinputs history[{label}]')
+        if snap(base) != before:
+            C.push(out, dict(what=f'deriving a block with add_hetinputs changed the {label} it was derived from', input=inp, signature=dict(op='block-mutated', call='add_hetinputs', block=label)))
+        if (sorted(d1.inputs), sorted(d1.outputs)) != want_all or (sorted(d2.inputs), sorted(d2.outputs)) != want_some or (sorted(d3.inputs), sorted(d3.outputs)) != want_some:
+            C.push(out, dict(what=f'the interface of a block derived from a {label} depends on which other blocks were derived from the same base before', input=inp,
+                             observed=dict(second=sorted(d2.inputs), removed=sorted(d3.inputs)), expected=dict(inputs=want_some[0]), signature=dict(op='history-dependence', block=label, call='add_hetinputs')))
     return out, n, history
 
 
